@@ -47,7 +47,7 @@ def replay_ops(prop: str, seed: int, ops: list[dict], knobs: dict, stop_at_class
     sess.streams = Streams(seed)
     for op in ops:
         vs = sess.exec_op(copy.deepcopy(op))
-        if stop_at_class is not None and any(v.klass() == stop_at_class for v in vs):
+        if stop_at_class is not None and any(_match(v, stop_at_class) for v in vs):
             break
         if stop_at_class is None and any(v.prop == prop for v in vs):
             break
@@ -56,6 +56,11 @@ def replay_ops(prop: str, seed: int, ops: list[dict], knobs: dict, stop_at_class
 
 # ---------------------------------------------------------------- minimisation (ddmin)
 
+def _match(v, klass) -> bool:
+    klass = tuple(klass)
+    return v.klass4() == klass if len(klass) == 4 else v.klass() == klass
+
+
 def _fails_here(prop, seed, ops, knobs, klass) -> bool:
     try:
         s = replay_ops(prop, seed, ops, knobs, stop_at_class=klass)
@@ -63,7 +68,7 @@ def _fails_here(prop, seed, ops, knobs, klass) -> bool:
         return False
     except RecursionError:
         return False
-    return any(v.klass() == klass for v in s.violations)
+    return any(_match(v, klass) for v in s.violations)
 
 
 def _fails(prop, seed, ops, knobs, klass) -> bool:
